@@ -224,6 +224,32 @@ func (L *Ledger) ReplayHistory(a Acts, adjust func(bal map[string]map[int]*big.I
 	return bal
 }
 
+// TransfersInto sums, per asset, what the transfers executed at height h sent to addr.
+func (L *Ledger) TransfersInto(h int64, addr string) map[int]*big.Int {
+	out := map[int]*big.Int{}
+	for _, b := range L.B {
+		if b.exec != h {
+			continue
+		}
+		for _, t := range L.T[b.hash] {
+			if t.action != 1 {
+				continue
+			}
+			tk := tickerIdx(t.fromAsset)
+			for _, o := range t.outputs {
+				if o[0] == addr {
+					v, _ := new(big.Int).SetString(o[1], 10)
+					if out[tk] == nil {
+						out[tk] = new(big.Int)
+					}
+					out[tk].Add(out[tk], v)
+				}
+			}
+		}
+	}
+	return out
+}
+
 // CompareBalances returns a description of the first difference between two balance maps.
 type balDisc struct {
 	addr  string
